@@ -5,6 +5,7 @@ import glob, json, os, re
 
 MISSED = {
  # round 4 (G, H)
+ 'C19-G': 'interpreted-string family: every string field carries malformed sentences of the language the server reads from it (truncations, deletions, metacharacters, dangling / doubled operators of filters, enumerations, relation paths), token soups, 2-3 simultaneous field mutations, empty / emptied / float16 indexes, every other HTTP method',
  'C16-G': 'group `methods`: every route x 12 HTTP methods x refused credentials (no header, 90+ forgeries, revoked, expired, altered byte) and restricted tokens; gate oracle: no 2xx behind the auth chain, no effect, no secret in the response',
  'C17-G': 'forbidden-prompt / cache indexes created with time decay (memory indexes) and stored entries of drawn ages: rank order and distance order differ',
  'C17-H': 'group `expiry` (answers the gateway stored itself grow older than a 2-12 s TTL in real time) + read-out of created_at of every gateway-stored entry against the clock bracket',
